@@ -2,7 +2,7 @@
   C08 — Deal lifecycle: unique publication, one timely activation by the provider.
   Property theorems over the model `BA.Market` (actors/market/src/{lib,state,policy}.rs).
 -/
-import BA.Lemmas.MarketShape
+import BA.Lemmas.MarketTimeout
 
 namespace BA.Market
 open BA
@@ -333,6 +333,29 @@ theorem timeout_on_touch (s : State) (id : Nat) (d : Proposal) (hp : alookup id 
       · rw [r.proposals]; exact alookup_aerase_same _ _
       · rw [hpend]; simp [pendingRemove]
       · rw [r.burntTotal]; rfl
+
+/-- **Removal on first touch, unconditionally in reachable states.**  In any state reached by any
+    history, a proposal that was never activated, is still in the pending set and whose start epoch
+    has come is removed by the first `SettleDealPayments` that names it: the proposal and its
+    pending entry are gone, the entry is reported as failed, the provider's whole collateral is
+    slashed (escrow and locked both lowered by it, the amount handed to the burn), the client's fee
+    and collateral are unlocked in full and its escrow is untouched. -/
+theorem timeout_removes (ops : List Op) (id : Nat) (d : Proposal)
+    (hp : alookup id (run init ops).proposals = some d)
+    (hst : alookup id (run init ops).states = none)
+    (hstart : d.startE ≤ (run init ops).epoch) (hpend : d ∈ (run init ops).pending) :
+    ∃ s', settleOne (run init ops) id = (s', .fail, d.providerColl) ∧
+      alookup id s'.proposals = none ∧ d ∉ s'.pending ∧
+      s'.burntTotal = (run init ops).burntTotal + d.providerColl ∧
+      (∀ j, bal s'.escrow j = bal (run init ops).escrow j - ind j d.provider d.providerColl) ∧
+      (∀ j, bal s'.locked j = bal (run init ops).locked j - ind j d.client (d.fee + d.clientColl)
+          - ind j d.provider d.providerColl) := by
+  have hi := inv_reachable ops
+  obtain ⟨s', hs'⟩ := timeout_succeeds hi hp hst hpend
+  rcases (timeout_on_touch _ id d hp hst).2 hstart with ⟨s2, h1, h2, h3, h4, h5⟩ | ⟨e, h1, _⟩
+  · obtain ⟨_, _, _, _, _, _, _, m⟩ := timeoutDeal_ok h1
+    exact ⟨s2, h2, h3, h4, h5, by intro j; rw [m.escrow]; omega, by intro j; rw [m.locked]; omega⟩
+  · rw [hs'] at h1; simp at h1
 
 /-! ### Over whole histories: at most one activation, ids never reused, pending set -/
 
